@@ -177,6 +177,8 @@ def run(chk):
     rule_names(chk)
     rule_entry(chk)
     rule_used(chk)
+    import c18
+    c18.rule_build_eval(chk, prefix="C05.build")
     if not rule_stage_eval(chk):
         rule_thread_group(chk)
 
